@@ -10,7 +10,9 @@ use crate::core::*;
 use crate::engine::*;
 use crate::genapi::ERROR_TABLE;
 use crate::monitor::c05::{AK, secrets};
-use crate::monitor::{c07, c08, c10};
+#[cfg(feature = "sdk")]
+use crate::monitor::c07;
+use crate::monitor::{c08, c10};
 use http::{HeaderMap, HeaderName, HeaderValue, StatusCode};
 use serde_json::{Value, json};
 use std::collections::HashMap;
@@ -468,6 +470,20 @@ fn random_request(g: &mut Rng) -> (String, RawRequest) {
     ("random-structured".into(), r)
 }
 
+/// valid requests as aws-sdk-s3 encodes them; a build without the SDK (sanitizer legs) reads the corpus
+/// that the ordinary build wrote to $VERIF_CORPUS
+#[cfg(feature = "sdk")]
+pub fn base_corpus(rt: &tokio::runtime::Runtime, seed: u64) -> Vec<RawRequest> {
+    c07::capture_corpus(rt, seed).into_iter().map(|(_, r)| r).collect()
+}
+
+#[cfg(not(feature = "sdk"))]
+pub fn base_corpus(_rt: &tokio::runtime::Runtime, _seed: u64) -> Vec<RawRequest> {
+    let Some(p) = std::env::var_os("VERIF_CORPUS") else { return Vec::new() };
+    let text = std::fs::read_to_string(&p).unwrap_or_else(|e| harness_error(&format!("cannot read the corpus {p:?}: {e}")));
+    serde_json::from_str(&text).unwrap_or_else(|e| harness_error(&format!("bad corpus: {e}")))
+}
+
 pub fn run(ctx: &RunCtx) -> i32 {
     let meta = CheckMeta {
         property: "C04",
@@ -518,7 +534,7 @@ pub fn run(ctx: &RunCtx) -> i32 {
     // (b)
     let secrets = secrets(ctx.seed);
     let rt0 = new_runtime();
-    let mut corpus: Vec<RawRequest> = c07::capture_corpus(&rt0, ctx.seed).into_iter().map(|(_, r)| r).collect();
+    let mut corpus: Vec<RawRequest> = base_corpus(&rt0, ctx.seed);
     {
         let mut g = Rng::new(ctx.seed ^ 0xc04);
         for _ in 0..6 {
